@@ -140,6 +140,804 @@ Definition ikey (it : uitem) : list bool :=
   bits (match it with ILeft p _ _ | IRight p _ _ | IBoth p _ _ => p end).
 Definition ilt (i j : uitem) : Prop := lex_lt (ikey i) (ikey j).
 
-Check ikey.
-Print ikey.
+
+(* ------------------------------------------------------------------------------------------ *)
+(** * Facts generic in the value type (used at [L] and at [R]) *)
+
+Section Gen.
+Variable T : Type.
+Notation treeT := (tree pfx T).
+Notation wfT := (wf_under pfx T bits ok).
+Notation keyT := (TrieWf.key pfx T bits).
+Notation is_lpmT := (Lookup.is_lpm pfx T bits).
+Notation no_coverT := (Lookup.no_cover pfx T bits).
+
+(** the key of the root node *)
+Definition rk (t : treeT) : list bool := bits (tpfx pfx T pzero t).
+(** a non-empty subtree, well-formed under its own root key *)
+Definition good (t : treeT) : Prop := is_node t = true /\ wfT (rk t) t.
+(** the stored match accounts for the node's own value *)
+Definition cons (t : treeT) (a : option (pfx * T)) : Prop :=
+  match pv t with Some o => a = Some o | None => True end.
+
+Definition under (b : list bool) (A : list (pfx * T)) : Prop :=
+  forall e, In e A -> prefix_of b (bits (fst e)).
+Definition below (k : list bool) (A : list (pfx * T)) : Prop :=
+  forall e, In e A -> prefix_of k (bits (fst e)) /\ bits (fst e) <> k.
+
+Lemma is_node_false (t : treeT) : is_node t = false -> t = Leaf.
+Proof. destruct t; [reflexivity | discriminate]. Qed.
+
+Lemma good_intro b (t : treeT) : wfT b t -> is_node t = true -> good t.
+Proof.
+  destruct t as [|i p v l r]; [discriminate|]. intros H _. split; [reflexivity|].
+  unfold rk. cbn [tpfx]. eapply wf_self; exact H.
+Qed.
+
+Lemma good_ok (t : treeT) : good t -> ok (tpfx pfx T pzero t).
+Proof. destruct t as [|i p v l r]; intros [Hn Hw]; [discriminate|]. cbn in Hw. cbn. tauto. Qed.
+
+Lemma good_under (t : treeT) : good t -> under (rk t) (entries t).
+Proof. intros [_ Hw] e He. eapply (entries_under pfx T bits ok); eassumption. Qed.
+
+Lemma under_weaken b b' A : prefix_of b' b -> under b A -> under b' A.
+Proof. intros H HA e He. eapply prefix_of_trans; [exact H | apply HA; exact He]. Qed.
+
+Lemma under_app b A1 A2 : under b A1 -> under b A2 -> under b (A1 ++ A2).
+Proof. intros H1 H2 e He. apply in_app_or in He. destruct He; auto. Qed.
+
+Lemma under_nil b : under b [].
+Proof. intros e []. Qed.
+
+Lemma under_below k s A : under (k ++ [s]) A -> below k A.
+Proof.
+  intros H e He. specialize (H e He). split; [eapply below_prefix; exact H|].
+  intros E. eapply below_neq; [exact H | exact E].
+Qed.
+
+Lemma below_app k A1 A2 : below k A1 -> below k A2 -> below k (A1 ++ A2).
+Proof. intros H1 H2 e He. apply in_app_or in He. destruct He; auto. Qed.
+
+Lemma below_proper k k' A : prefix_of k k' -> k' <> k -> under k' A -> below k A.
+Proof.
+  intros Hp Hn HA e He. specialize (HA e He). split; [eapply prefix_of_trans; eassumption|].
+  intros E. rewrite E in HA. apply Hn. apply prefix_of_antisym; assumption.
+Qed.
+
+Lemma good_node_inv i p v (l r : treeT) :
+  good (Node i p v l r) ->
+  ok p /\ wfT (bits p ++ [false]) l /\ wfT (bits p ++ [true]) r.
+Proof. intros [_ Hw]. unfold rk in Hw. cbn in Hw. tauto. Qed.
+
+Lemma cons_orelse (t : treeT) a : cons t (orelse (pv t) a).
+Proof. unfold cons. destruct (pv t); reflexivity. Qed.
+
+(** ** annotations: the most specific covering entry of [B], or else the inherited match *)
+Definition ann_ok (B : list (pfx * T)) (inh : option (pfx * T)) (p : pfx) (ann : option (pfx * T)) : Prop :=
+  (exists e, ann = Some e /\ is_lpmT B p e) \/ (no_coverT B p /\ ann = inh).
+
+Lemma ann_ext B B' inh p ann :
+  (forall e, In e B -> In e B') ->
+  (forall e, In e B' -> prefix_of (bits (fst e)) (bits p) -> In e B) ->
+  ann_ok B inh p ann -> ann_ok B' inh p ann.
+Proof.
+  intros Hi Hc [[e [-> [Hin [Hcov Hmax]]]]|[Hnc ->]].
+  - left. exists e. split; [reflexivity|]. split; [apply Hi; exact Hin|]. split; [exact Hcov|].
+    intros e' He' Hc'. apply Hmax; [apply Hc; assumption | exact Hc'].
+  - right. split; [|reflexivity]. intros e He Hc'. apply (Hnc e); [apply Hc; assumption | exact Hc'].
+Qed.
+
+Lemma ann_inh B inh inh' p ann :
+  (inh = inh' \/ ~ no_coverT B p) -> ann_ok B inh p ann -> ann_ok B inh' p ann.
+Proof.
+  intros H [Hl|[Hnc ->]]; [left; exact Hl|].
+  destruct H as [->|H]; [right; split; [exact Hnc | reflexivity] | contradiction].
+Qed.
+
+(** adding the own entry [(po, y)] (key [k]) on top of entries strictly below [k] *)
+Lemma ann_own po y B inh' p ann :
+  below (bits po) B -> prefix_of (bits po) (bits p) ->
+  ann_ok B (Some (po, y)) p ann -> ann_ok ((po, y) :: B) inh' p ann.
+Proof.
+  intros Hb Hp [[e [-> [Hin [Hcov Hmax]]]]|[Hnc ->]]; left.
+  - exists e. split; [reflexivity|]. split; [right; exact Hin|]. split; [exact Hcov|].
+    intros e' [<-|He'] Hc'; [|apply Hmax; assumption].
+    unfold TrieWf.key. cbn [fst]. apply prefix_of_len. apply (Hb e Hin).
+  - exists (po, y). split; [reflexivity|]. split; [left; reflexivity|]. split; [exact Hp|].
+    intros e' [<-|He'] Hc'; [apply le_n|]. exfalso. apply (Hnc e' He' Hc').
+Qed.
+
+Lemma ann_nil inh p : ann_ok [] inh p inh.
+Proof. right. split; [intros e []|reflexivity]. Qed.
+
+Lemma no_cover_below k B p : below k B -> bits p = k -> no_coverT B p.
+Proof.
+  intros Hb E e He Hc. destruct (Hb e He) as [H1 H2]. apply H2.
+  unfold TrieWf.key in Hc. rewrite E in Hc. apply prefix_of_antisym; assumption.
+Qed.
+
+(** the own value of a good node covers everything below its root key *)
+Lemma orelse_inh (t : treeT) a :
+  good t -> orelse (pv t) a = a \/ forall q, prefix_of (rk t) (bits q) -> ~ no_coverT (entries t) q.
+Proof.
+  destruct t as [|i p v l r]; intros [Hn Hw]; [discriminate|]. destruct v as [x|]; cbn [pv orelse].
+  - right. intros q Hq Hnc. apply (Hnc (p, x)); [apply in_entries_own | exact Hq].
+  - left. reflexivity.
+Qed.
+
+End Gen.
+
+Arguments rk {T}.
+Arguments good {T}.
+Arguments cons {T}.
+Arguments under {T}.
+Arguments below {T}.
+Arguments ann_ok {T}.
+
+Notation wfL := (wf_under pfx L bits ok).
+Notation wfR := (wf_under pfx R bits ok).
+
+(* ------------------------------------------------------------------------------------------ *)
+(** * The contribution of a stack entry *)
+
+Definition item_ok (A : list (pfx * L)) (B : list (pfx * R)) (la : lpmL) (ra : lpmR) (it : uitem) : Prop :=
+  match it with
+  | IBoth p l r => In (p, l) A /\ exists pr, In (pr, r) B /\ bits pr = bits p
+  | ILeft p l ann => In (p, l) A /\ (forall e, In e B -> bits (fst e) <> bits p) /\ ann_ok B ra p ann
+  | IRight p ann r => (exists pr, In (pr, r) B /\ bits pr = bits p) /\
+                      (forall e, In e A -> bits (fst e) <> bits p) /\ ann_ok A la p ann
+  end.
+
+(** [out] is the union of the entry lists [A] and [B], annotations relative to the inherited
+    matches [la], [ra] *)
+Definition uspec (A : list (pfx * L)) (B : list (pfx * R)) (la : lpmL) (ra : lpmR) (out : list uitem) : Prop :=
+  StronglySorted ilt out /\
+  (forall it, In it out -> item_ok A B la ra it) /\
+  (forall e, In e A -> exists it, In it out /\ ikey it = bits (fst e)) /\
+  (forall e, In e B -> exists it, In it out /\ ikey it = bits (fst e)).
+
+Lemma item_key A B la ra it : item_ok A B la ra it ->
+  (exists e, In e A /\ bits (fst e) = ikey it) \/ (exists e, In e B /\ bits (fst e) = ikey it).
+Proof.
+  destruct it as [p l ann|p ann r|p l r]; cbn; intros H.
+  - left. exists (p, l). split; [apply H | reflexivity].
+  - right. destruct H as ((pr & H1 & H2) & _). exists (pr, r). split; [exact H1 | exact H2].
+  - left. exists (p, l). split; [apply H | reflexivity].
+Qed.
+
+Lemma uspec_under b A B la ra X :
+  under b A -> under b B -> uspec A B la ra X -> forall it, In it X -> prefix_of b (ikey it).
+Proof.
+  intros HA HB (_ & Hi & _) it Hit.
+  destruct (item_key _ _ _ _ _ (Hi it Hit)) as [[e [He <-]]|[e [He <-]]]; [apply HA | apply HB]; exact He.
+Qed.
+
+Lemma uspec_nil la ra : uspec [] [] la ra [].
+Proof. split; [constructor|]. split; [intros it []|]. split; intros e []. Qed.
+
+(** enlarging the operands by entries that do not cover the item's key *)
+Lemma item_ok_mono A B A' B' la ra it :
+  (forall e, In e A -> In e A') -> (forall e, In e B -> In e B') ->
+  (forall e, In e A' -> prefix_of (bits (fst e)) (ikey it) -> In e A) ->
+  (forall e, In e B' -> prefix_of (bits (fst e)) (ikey it) -> In e B) ->
+  item_ok A B la ra it -> item_ok A' B' la ra it.
+Proof.
+  intros HA HB HA' HB'. destruct it as [p l ann|p ann r|p l r]; cbn [item_ok ikey] in *.
+  - intros (H1 & H2 & H3). split; [apply HA; exact H1|]. split.
+    + intros e He E. apply (H2 e); [|exact E]. apply HB'; [exact He|]. rewrite E. apply prefix_of_refl.
+    + eapply ann_ext; [exact HB | exact HB' | exact H3].
+  - intros ((pr & H1 & E1) & H2 & H3). split; [exists pr; split; [apply HB; exact H1 | exact E1]|]. split.
+    + intros e He E. apply (H2 e); [|exact E]. apply HA'; [exact He|]. rewrite E. apply prefix_of_refl.
+    + eapply ann_ext; [exact HA | exact HA' | exact H3].
+  - intros (H1 & pr & H2 & H3). split; [apply HA; exact H1|]. exists pr. split; [apply HB; exact H2 | exact H3].
+Qed.
+
+(** the two sides of a branching point *)
+Lemma uspec_split c A1 B1 A2 B2 la ra X1 X2 :
+  under (c ++ [false]) A1 -> under (c ++ [false]) B1 ->
+  under (c ++ [true]) A2 -> under (c ++ [true]) B2 ->
+  uspec A1 B1 la ra X1 -> uspec A2 B2 la ra X2 ->
+  uspec (A1 ++ A2) (B1 ++ B2) la ra (X1 ++ X2).
+Proof.
+  intros HA1 HB1 HA2 HB2 U1 U2.
+  pose proof (uspec_under _ _ _ _ _ _ HA1 HB1 U1) as K1.
+  pose proof (uspec_under _ _ _ _ _ _ HA2 HB2 U2) as K2.
+  destruct U1 as (Hs1 & Hi1 & Hca1 & Hcb1). destruct U2 as (Hs2 & Hi2 & Hca2 & Hcb2).
+  split; [|split; [|split]].
+  - apply ss_app; [exact Hs1 | exact Hs2|]. intros a b Ha Hb. unfold ilt.
+    apply (lex_lt_branches c); [apply K1; exact Ha | apply K2; exact Hb].
+  - intros it Hit. apply in_app_or in Hit. destruct Hit as [Hit|Hit].
+    + apply (item_ok_mono A1 B1); [intros; apply in_or_app; auto | intros; apply in_or_app; auto | | | apply Hi1; exact Hit].
+      * intros e He Hc. apply in_app_or in He. destruct He as [He|He]; [exact He|]. exfalso.
+        apply (sides_disjoint c (ikey it)); [apply K1; exact Hit|].
+        eapply prefix_of_trans; [apply (HA2 e He) | exact Hc].
+      * intros e He Hc. apply in_app_or in He. destruct He as [He|He]; [exact He|]. exfalso.
+        apply (sides_disjoint c (ikey it)); [apply K1; exact Hit|].
+        eapply prefix_of_trans; [apply (HB2 e He) | exact Hc].
+    + apply (item_ok_mono A2 B2); [intros; apply in_or_app; auto | intros; apply in_or_app; auto | | | apply Hi2; exact Hit].
+      * intros e He Hc. apply in_app_or in He. destruct He as [He|He]; [|exact He]. exfalso.
+        apply (sides_disjoint c (ikey it)); [|apply K2; exact Hit].
+        eapply prefix_of_trans; [apply (HA1 e He) | exact Hc].
+      * intros e He Hc. apply in_app_or in He. destruct He as [He|He]; [|exact He]. exfalso.
+        apply (sides_disjoint c (ikey it)); [|apply K2; exact Hit].
+        eapply prefix_of_trans; [apply (HB1 e He) | exact Hc].
+  - intros e He. apply in_app_or in He. destruct He as [He|He].
+    + destruct (Hca1 e He) as [it [Hit Ek]]. exists it. split; [apply in_or_app; left; exact Hit | exact Ek].
+    + destruct (Hca2 e He) as [it [Hit Ek]]. exists it. split; [apply in_or_app; right; exact Hit | exact Ek].
+  - intros e He. apply in_app_or in He. destruct He as [He|He].
+    + destruct (Hcb1 e He) as [it [Hit Ek]]. exists it. split; [apply in_or_app; left; exact Hit | exact Ek].
+    + destruct (Hcb2 e He) as [it [Hit Ek]]. exists it. split; [apply in_or_app; right; exact Hit | exact Ek].
+Qed.
+
+(** changing the inherited matches where they cannot matter *)
+Lemma uspec_inh A B la ra la' ra' X :
+  (la = la' \/ forall e q, In e B -> bits (fst e) = bits q -> ~ Lookup.no_cover pfx L bits A q) ->
+  (ra = ra' \/ forall e q, In e A -> bits (fst e) = bits q -> ~ Lookup.no_cover pfx R bits B q) ->
+  uspec A B la ra X -> uspec A B la' ra' X.
+Proof.
+  intros HL HR (Hs & Hi & Hca & Hcb). split; [exact Hs|]. split; [|split; assumption].
+  intros it Hit. specialize (Hi it Hit). destruct it as [p l ann|p ann r|p l r]; cbn [item_ok] in *.
+  - destruct Hi as (H1 & H2 & H3). split; [exact H1|]. split; [exact H2|].
+    eapply ann_inh; [|exact H3]. destruct HR as [->|HR]; [left; reflexivity | right; apply (HR (p, l) p H1 eq_refl)].
+  - destruct Hi as (H1 & H2 & H3). split; [exact H1|]. split; [exact H2|].
+    eapply ann_inh; [|exact H3]. destruct HL as [->|HL]; [left; reflexivity | right; destruct H1 as (pr & H1 & E1); apply (HL (pr, r) p H1 E1)].
+  - exact Hi.
+Qed.
+
+(** first item smaller than the rest *)
+Lemma own_first k A B la ra X (it0 : uitem) :
+  ikey it0 = k -> below k A -> below k B -> uspec A B la ra X -> Forall (ilt it0) X.
+Proof.
+  intros Ek HA HB (_ & Hi & _). apply Forall_forall. intros it Hit. unfold ilt. rewrite Ek.
+  destruct (item_key _ _ _ _ _ (Hi it Hit)) as [[e [He <-]]|[e [He <-]]].
+  - destruct (HA e He) as [H1 H2]. apply lex_lt_prefix; [exact H1 | congruence].
+  - destruct (HB e He) as [H1 H2]. apply lex_lt_prefix; [exact H1 | congruence].
+Qed.
+
+Lemma compl_cons {T} (e0 : pfx * T) (A : list (pfx * T)) (it0 : uitem) X :
+  ikey it0 = bits (fst e0) ->
+  (forall e, In e A -> exists it, In it X /\ ikey it = bits (fst e)) ->
+  forall e, In e (e0 :: A) -> exists it, In it (it0 :: X) /\ ikey it = bits (fst e).
+Proof.
+  intros E0 H e [<-|He]; [exists it0; split; [left; reflexivity | exact E0]|].
+  destruct (H e He) as [it [Hit Ek]]. exists it. split; [right; exact Hit | exact Ek].
+Qed.
+
+Lemma compl_skip {T} (A : list (pfx * T)) (it0 : uitem) X :
+  (forall e, In e A -> exists it, In it X /\ ikey it = bits (fst e)) ->
+  forall e, In e A -> exists it, In it (it0 :: X) /\ ikey it = bits (fst e).
+Proof.
+  intros H e He. destruct (H e He) as [it [Hit Ek]]. exists it. split; [right; exact Hit | exact Ek].
+Qed.
+
+(** the node's own item on top of what lies strictly below its key *)
+Lemma uspec_own_l pl x A B la' ra X :
+  below (bits pl) A -> below (bits pl) B ->
+  uspec A B (Some (pl, x)) ra X -> uspec ((pl, x) :: A) B la' ra (ILeft pl x ra :: X).
+Proof.
+  intros HA HB U. pose proof (own_first (bits pl) _ _ _ _ _ (ILeft pl x ra) eq_refl HA HB U) as Hf.
+  destruct U as (Hs & Hi & Hca & Hcb). split; [|split; [|split]].
+  - constructor; assumption.
+  - intros it [<-|Hit].
+    + cbn [item_ok]. split; [left; reflexivity|]. split.
+      * intros e He. apply (HB e He).
+      * right. split; [eapply no_cover_below; [exact HB | reflexivity] | reflexivity].
+    + specialize (Hi it Hit). destruct it as [p l ann|p ann r|p l r]; cbn [item_ok] in *.
+      * destruct Hi as (H1 & H2 & H3). split; [right; exact H1|]. split; assumption.
+      * destruct Hi as (H1 & H2 & H3). destruct H1 as (pr' & H1 & E1).
+        destruct (HB _ H1) as [Hp Hn]. cbn [fst] in Hp, Hn. rewrite E1 in Hp, Hn.
+        split; [exists pr'; split; [exact H1 | exact E1]|]. split.
+        -- intros e [<-|He]; [cbn [fst]; congruence | apply H2; exact He].
+        -- apply ann_own; assumption.
+      * destruct Hi as (H1 & H2). split; [right; exact H1 | exact H2].
+  - apply compl_cons; [reflexivity | exact Hca].
+  - apply compl_skip; exact Hcb.
+Qed.
+
+Lemma uspec_own_r p pr y A B la ra' X :
+  bits pr = bits p -> below (bits p) A -> below (bits p) B ->
+  uspec A B la (Some (pr, y)) X -> uspec A ((pr, y) :: B) la ra' (IRight p la y :: X).
+Proof.
+  intros Epr HA HB U. pose proof (own_first (bits p) _ _ _ _ _ (IRight p la y) eq_refl HA HB U) as Hf.
+  destruct U as (Hs & Hi & Hca & Hcb). split; [|split; [|split]].
+  - constructor; assumption.
+  - intros it [<-|Hit].
+    + cbn [item_ok]. split; [exists pr; split; [left; reflexivity | exact Epr]|]. split.
+      * intros e He. apply (HA e He).
+      * right. split; [eapply no_cover_below; [exact HA | reflexivity] | reflexivity].
+    + specialize (Hi it Hit). destruct it as [p0 l ann|p0 ann r|p0 l r]; cbn [item_ok] in *.
+      * destruct Hi as (H1 & H2 & H3). destruct (HA _ H1) as [Hp Hn]. cbn [fst] in Hp, Hn.
+        split; [exact H1|]. split.
+        -- intros e [<-|He]; [cbn [fst]; congruence | apply H2; exact He].
+        -- apply ann_own; [rewrite Epr; exact HB | rewrite Epr; exact Hp | exact H3].
+      * destruct Hi as ((pr' & H1 & E1) & H2 & H3).
+        split; [exists pr'; split; [right; exact H1 | exact E1]|]. split; assumption.
+      * destruct Hi as (H1 & pr' & H2 & H3). split; [exact H1|]. exists pr'. split; [right; exact H2 | exact H3].
+  - apply compl_skip; exact Hca.
+  - apply compl_cons; [cbn [ikey fst]; symmetry; exact Epr | exact Hcb].
+Qed.
+
+Lemma uspec_own_both pl pr x y A B la' ra' X :
+  bits pr = bits pl -> below (bits pl) A -> below (bits pl) B ->
+  uspec A B (Some (pl, x)) (Some (pr, y)) X ->
+  uspec ((pl, x) :: A) ((pr, y) :: B) la' ra' (IBoth pl x y :: X).
+Proof.
+  intros Epr HA HB U. pose proof (own_first (bits pl) _ _ _ _ _ (IBoth pl x y) eq_refl HA HB U) as Hf.
+  destruct U as (Hs & Hi & Hca & Hcb). split; [|split; [|split]].
+  - constructor; assumption.
+  - intros it [<-|Hit].
+    + cbn [item_ok]. split; [left; reflexivity|]. exists pr. split; [left; reflexivity | exact Epr].
+    + specialize (Hi it Hit). destruct it as [p l ann|p ann r|p l r]; cbn [item_ok] in *.
+      * destruct Hi as (H1 & H2 & H3). destruct (HA _ H1) as [Hp Hn]. cbn [fst] in Hp, Hn.
+        split; [right; exact H1|]. split.
+        -- intros e [<-|He]; [cbn [fst]; congruence | apply H2; exact He].
+        -- apply ann_own; [rewrite Epr; exact HB | rewrite Epr; exact Hp | exact H3].
+      * destruct Hi as ((pr' & H1 & E1) & H2 & H3).
+        destruct (HB _ H1) as [Hp Hn]. cbn [fst] in Hp, Hn. rewrite E1 in Hp, Hn.
+        split; [exists pr'; split; [right; exact H1 | exact E1]|]. split.
+        -- intros e [<-|He]; [cbn [fst]; congruence | apply H2; exact He].
+        -- apply ann_own; assumption.
+      * destruct Hi as (H1 & pr' & H2 & H3). split; [right; exact H1|]. exists pr'. split; [right; exact H2 | exact H3].
+  - apply compl_cons; [reflexivity | exact Hca].
+  - apply compl_cons; [cbn [ikey fst]; symmetry; exact Epr | exact Hcb].
+Qed.
+
+(* ------------------------------------------------------------------------------------------ *)
+(** * The laws, specialised *)
+
+Lemma c_true p q : ok p -> ok q -> contains p q = true -> prefix_of (bits p) (bits q).
+Proof. apply (contains_true pfx peq contains is_bit_set plen lcp pzero mcmp bits ok LAWS). Qed.
+Lemma c_false p q : ok p -> ok q -> contains p q = false -> ~ prefix_of (bits p) (bits q).
+Proof. apply (contains_false pfx peq contains is_bit_set plen lcp pzero mcmp bits ok LAWS). Qed.
+Lemma tr_spec p q : ok p -> ok q -> to_right p q = nth (length (bits p)) (bits q) false.
+Proof. apply (to_right_spec pfx peq contains is_bit_set plen lcp pzero mcmp bits ok LAWS). Qed.
+Lemma plen_spec p : ok p -> plen p = N.of_nat (length (bits p)).
+Proof. apply (plen_bits pfx peq contains is_bit_set plen lcp pzero mcmp bits ok LAWS). Qed.
+Lemma mcmp_bcmp p q : ok p -> ok q -> mcmp p q = bcmp (bits p) (bits q).
+Proof. apply (mcmp_spec pfx peq contains is_bit_set plen lcp pzero mcmp bits ok LAWS). Qed.
+
+Lemma bcmp_class x y : ~ prefix_of x y -> ~ prefix_of y x ->
+  match bcmp x y with Lt => sep x y | Gt => sep y x | Eq => False end.
+Proof. intros H1 H2. destruct (incomp_cases x y H1 H2) as [[-> S]|[-> S]]; exact S. Qed.
+
+(* ------------------------------------------------------------------------------------------ *)
+(** * Stack invariant and per-entry relation *)
+
+Definition okI (ix : uidx) : Prop :=
+  match ix with
+  | UBoth l r => good l /\ good r /\ rk l = rk r
+  | UFirstL l r => good l /\ good r /\ prefix_of (rk l) (rk r) /\ rk l <> rk r
+  | UFirstR l r => good l /\ good r /\ prefix_of (rk r) (rk l) /\ rk r <> rk l
+  | UOnlyL l => good l
+  | UOnlyR r => good r
+  end.
+Definition consI (ix : uidx) (la : lpmL) (ra : lpmR) : Prop :=
+  match ix with
+  | UBoth l r => cons l la /\ cons r ra
+  | UFirstL l _ | UOnlyL l => cons l la
+  | UFirstR _ r | UOnlyR r => cons r ra
+  end.
+Definition okE (e : uentry) : Prop := let '(ix, la, ra) := e in okI ix /\ consI ix la ra.
+
+Definition Rel (e : uentry) (out : list uitem) : Prop :=
+  let '(ix, la, ra) := e in
+  match ix with
+  | UBoth l r | UFirstL l r | UFirstR l r => uspec (entries l) (entries r) la ra out
+  | UOnlyL l => uspec (entries l) [] la ra out
+  | UOnlyR r => uspec [] (entries r) la ra out
+  end.
+
+Definition isz (ix : uidx) : nat :=
+  match ix with
+  | UBoth l r | UFirstL l r | UFirstR l r => tsize l + tsize r
+  | UOnlyL l => tsize l
+  | UOnlyR r => tsize r
+  end.
+Definition esz (e : uentry) : nat := isz (fst (fst e)).
+
+Lemma extend_app la ra xs ys : extend la ra (xs ++ ys) = extend la ra xs ++ extend la ra ys.
+Proof. unfold SetOps.u_extend_lpm. apply map_app. Qed.
+
+Lemma extend_cons la ra x xs : extend la ra (x :: xs) = extend la ra [x] ++ extend la ra xs.
+Proof. reflexivity. Qed.
+
+Lemma extend_ok la ra xs : Forall okI xs -> Forall okE (extend la ra xs).
+Proof.
+  induction 1 as [|x xs Hx _ IH]; [constructor|]. rewrite extend_cons. apply Forall_app. split; [|exact IH].
+  constructor; [|constructor]. destruct x; cbn [okE okI consI]; (split; [exact Hx|]);
+    repeat split; apply cons_orelse.
+Qed.
+
+Lemma extend_size la ra xs : msize uentry esz (extend la ra xs) = list_sum (map isz xs).
+Proof.
+  unfold msize, SetOps.u_extend_lpm. rewrite map_map. f_equal. apply map_ext. intros x. destruct x; reflexivity.
+Qed.
+
+Lemma inh_l (a : treeL) la (B : list (pfx * R)) :
+  good a -> under (rk a) B ->
+  orelse (pv a) la = la \/
+  forall e q, In e B -> bits (fst e) = bits q -> ~ Lookup.no_cover pfx L bits (entries a) q.
+Proof.
+  intros Ga HB. destruct (orelse_inh L a la Ga) as [E|H]; [left; exact E|].
+  right. intros e q He Eq. apply H. rewrite <- Eq. apply HB. exact He.
+Qed.
+Lemma inh_r (b : treeR) ra (A : list (pfx * L)) :
+  good b -> under (rk b) A ->
+  orelse (pv b) ra = ra \/
+  forall e q, In e A -> bits (fst e) = bits q -> ~ Lookup.no_cover pfx R bits (entries b) q.
+Proof.
+  intros Gb HA. destruct (orelse_inh R b ra Gb) as [E|H]; [left; exact E|].
+  right. intros e q He Eq. apply H. rewrite <- Eq. apply HA. exact He.
+Qed.
+
+(* ------------------------------------------------------------------------------------------ *)
+(** * [next_indices]: classification of a pair of subtrees *)
+
+Inductive ni_class (a : treeL) (b : treeR) : list uidx -> Prop :=
+| NC_none : is_node a = false -> is_node b = false -> ni_class a b []
+| NC_l : good a -> is_node b = false -> ni_class a b [UOnlyL a]
+| NC_r : is_node a = false -> good b -> ni_class a b [UOnlyR b]
+| NC_both : good a -> good b -> rk a = rk b -> ni_class a b [UBoth a b]
+| NC_fl : good a -> good b -> prefix_of (rk a) (rk b) -> rk a <> rk b -> ni_class a b [UFirstL a b]
+| NC_fr : good a -> good b -> prefix_of (rk b) (rk a) -> rk b <> rk a -> ni_class a b [UFirstR a b]
+| NC_lt : good a -> good b -> sep (rk a) (rk b) -> ni_class a b [UOnlyR b; UOnlyL a]
+| NC_gt : good a -> good b -> sep (rk b) (rk a) -> ni_class a b [UOnlyL a; UOnlyR b].
+
+Lemma ni_classify ba bb (a : treeL) (b : treeR) : wfL ba a -> wfR bb b -> ni_class a b (ni a b).
+Proof.
+  intros Ha Hb. unfold SetOps.u_next_indices.
+  destruct (is_node a) eqn:Na; destruct (is_node b) eqn:Nb.
+  - pose proof (good_intro L _ _ Ha Na) as Ga. pose proof (good_intro R _ _ Hb Nb) as Gb.
+    pose proof (good_ok L a Ga) as Oa. pose proof (good_ok R b Gb) as Ob.
+    rewrite (mcmp_bcmp _ _ Oa Ob). fold (rk a). fold (rk b).
+    destruct (N.eqb_spec (plen (tpfx pfx L pzero a)) (plen (tpfx pfx R pzero b))) as [El|Nl].
+    + assert (Hlen : length (rk a) = length (rk b)).
+      { rewrite (plen_spec _ Oa), (plen_spec _ Ob) in El. unfold rk. lia. }
+      destruct (list_eq_dec bool_dec (rk a) (rk b)) as [E|N].
+      * rewrite E, bcmp_refl. apply NC_both; assumption.
+      * destruct (same_len_incomp _ _ Hlen N) as [H1 H2].
+        pose proof (bcmp_class _ _ H1 H2) as C.
+        destruct (bcmp (rk a) (rk b)); [contradiction | apply NC_lt; assumption | apply NC_gt; assumption].
+    + assert (Hlen : length (rk a) <> length (rk b)).
+      { rewrite (plen_spec _ Oa), (plen_spec _ Ob) in Nl. unfold rk. lia. }
+      destruct (contains (tpfx pfx L pzero a) (tpfx pfx R pzero b)) eqn:C1.
+      { apply NC_fl; try assumption; [apply c_true; assumption | congruence]. }
+      destruct (contains (tpfx pfx R pzero b) (tpfx pfx L pzero a)) eqn:C2.
+      { apply NC_fr; try assumption; [apply c_true; assumption | congruence]. }
+      pose proof (bcmp_class (rk a) (rk b) (c_false _ _ Oa Ob C1) (c_false _ _ Ob Oa C2)) as C.
+      destruct (bcmp (rk a) (rk b)); [contradiction | apply NC_lt; assumption | apply NC_gt; assumption].
+  - apply NC_l; [eapply good_intro; eassumption | assumption].
+  - apply NC_r; [assumption | eapply good_intro; eassumption].
+  - apply NC_none; assumption.
+Qed.
+
+Lemma class_ok a b xs : ni_class a b xs -> Forall okI xs.
+Proof. intros []; repeat (apply Forall_cons || apply Forall_nil); cbn [okI]; auto. Qed.
+
+Lemma class_spec a b xs la ra : ni_class a b xs ->
+  forall ls, Forall2 Rel (rev (extend la ra xs)) ls -> uspec (entries a) (entries b) la ra (concat ls).
+Proof.
+  intros C ls HF. destruct C as [Na Nb|Ga Nb|Na Gb|Ga Gb E|Ga Gb Hp Hn|Ga Gb Hp Hn|Ga Gb S|Ga Gb S];
+    cbn [SetOps.u_extend_lpm map rev app] in HF; inv_F2; cbn [concat Rel] in *; rewrite ?app_nil_r;
+    try (apply is_node_false in Na; subst a; cbn [entries]);
+    try (apply is_node_false in Nb; subst b; cbn [entries]).
+  - apply uspec_nil.
+  - match goal with H : uspec _ _ _ _ _ |- _ => eapply uspec_inh; [| |exact H] end.
+    + right. intros e q [].
+    + left. reflexivity.
+  - match goal with H : uspec _ _ _ _ _ |- _ => eapply uspec_inh; [| |exact H] end.
+    + left. reflexivity.
+    + right. intros e q [].
+  - match goal with H : uspec _ _ _ _ _ |- _ => eapply uspec_inh; [| |exact H] end.
+    + apply inh_l; [exact Ga|]. rewrite E. apply good_under. exact Gb.
+    + apply inh_r; [exact Gb|]. rewrite <- E. apply good_under. exact Ga.
+  - match goal with H : uspec _ _ _ _ _ |- _ => eapply uspec_inh; [| |exact H] end.
+    + apply inh_l; [exact Ga|]. eapply under_weaken; [exact Hp | apply good_under; exact Gb].
+    + left. reflexivity.
+  - match goal with H : uspec _ _ _ _ _ |- _ => eapply uspec_inh; [| |exact H] end.
+    + left. reflexivity.
+    + apply inh_r; [exact Gb|]. eapply under_weaken; [exact Hp | apply good_under; exact Ga].
+  - destruct S as [c [Sa Sb]].
+    match goal with H1 : uspec (entries a) [] _ _ ?y1, H2 : uspec [] (entries b) _ _ ?y2 |- _ =>
+      pose proof (uspec_split c (entries a) [] [] (entries b) la ra y1 y2) as U;
+      rewrite app_nil_r in U; apply U; clear U;
+      [ eapply under_weaken; [exact Sa | apply good_under; exact Ga] | apply under_nil | apply under_nil
+      | eapply under_weaken; [exact Sb | apply good_under; exact Gb]
+      | eapply uspec_inh; [| |exact H1] | eapply uspec_inh; [| |exact H2] ] end.
+    + right. intros e q [].
+    + left. reflexivity.
+    + left. reflexivity.
+    + right. intros e q [].
+  - destruct S as [c [Sb Sa]].
+    match goal with H1 : uspec (entries a) [] _ _ ?y1, H2 : uspec [] (entries b) _ _ ?y2 |- _ =>
+      pose proof (uspec_split c [] (entries b) (entries a) [] la ra y2 y1) as U;
+      rewrite app_nil_r in U; apply U; clear U;
+      [ apply under_nil | eapply under_weaken; [exact Sb | apply good_under; exact Gb]
+      | eapply under_weaken; [exact Sa | apply good_under; exact Ga] | apply under_nil
+      | eapply uspec_inh; [| |exact H2] | eapply uspec_inh; [| |exact H1] ] end.
+    + left. reflexivity.
+    + right. intros e q [].
+    + right. intros e q [].
+    + left. reflexivity.
+Qed.
+
+(* ------------------------------------------------------------------------------------------ *)
+(** * The children of each kind of entry *)
+
+Lemma only_l_spec il pl vl (ll lr : treeL) :
+  good (Node il pl vl ll lr) ->
+  Forall okI (only_l (Node il pl vl ll lr)) /\
+  forall la ra ls, Forall2 Rel (rev (extend la ra (only_l (Node il pl vl ll lr)))) ls ->
+    uspec (entries ll ++ entries lr) [] la ra (concat ls).
+Proof.
+  intros G. destruct (good_node_inv L _ _ _ _ _ G) as (Op & Wl & Wr).
+  unfold SetOps.u_only_l. cbn [tleft tright].
+  assert (Hone : forall t : treeL, good t -> forall la ra y,
+            Rel (UOnlyL t, orelse (pv t) la, ra) y -> uspec (entries t) [] la ra y).
+  { intros t Gt la ra y H. cbn [Rel] in H. eapply uspec_inh; [| |exact H]; [right; intros e q [] | left; reflexivity]. }
+  destruct (is_node ll) eqn:Nl; destruct (is_node lr) eqn:Nr;
+    try (apply is_node_false in Nl; subst ll); try (apply is_node_false in Nr; subst lr);
+    cbn [app entries]; (split; [repeat (apply Forall_cons || apply Forall_nil); cbn [okI]; eauto using good_intro|]);
+    intros la ra ls HF; cbn [SetOps.u_extend_lpm map rev app] in HF; inv_F2; cbn [concat]; rewrite ?app_nil_r.
+  - match goal with H1 : Rel (UOnlyL ll, _, _) ?y1, H2 : Rel (UOnlyL lr, _, _) ?y2 |- _ =>
+      pose proof (uspec_split (bits pl) (entries ll) [] (entries lr) [] la ra y1 y2) as U; cbn [app] in U; apply U; clear U;
+      [ intros e He; eapply (entries_under pfx L bits ok); eassumption | apply under_nil
+      | intros e He; eapply (entries_under pfx L bits ok); eassumption | apply under_nil
+      | apply Hone; [eapply good_intro; eassumption | exact H1]
+      | apply Hone; [eapply good_intro; eassumption | exact H2] ] end.
+  - apply Hone; [eapply good_intro; eassumption | assumption].
+  - apply Hone; [eapply good_intro; eassumption | assumption].
+  - apply uspec_nil.
+Qed.
+
+Lemma only_r_spec ir pr vr (rl rr : treeR) :
+  good (Node ir pr vr rl rr) ->
+  Forall okI (only_r (Node ir pr vr rl rr)) /\
+  forall la ra ls, Forall2 Rel (rev (extend la ra (only_r (Node ir pr vr rl rr)))) ls ->
+    uspec [] (entries rl ++ entries rr) la ra (concat ls).
+Proof.
+  intros G. destruct (good_node_inv R _ _ _ _ _ G) as (Op & Wl & Wr).
+  unfold SetOps.u_only_r. cbn [tleft tright].
+  assert (Hone : forall t : treeR, good t -> forall la ra y,
+            Rel (UOnlyR t, la, orelse (pv t) ra) y -> uspec [] (entries t) la ra y).
+  { intros t Gt la ra y H. cbn [Rel] in H. eapply uspec_inh; [| |exact H]; [left; reflexivity | right; intros e q []]. }
+  destruct (is_node rl) eqn:Nl; destruct (is_node rr) eqn:Nr;
+    try (apply is_node_false in Nl; subst rl); try (apply is_node_false in Nr; subst rr);
+    cbn [app entries]; (split; [repeat (apply Forall_cons || apply Forall_nil); cbn [okI]; eauto using good_intro|]);
+    intros la ra ls HF; cbn [SetOps.u_extend_lpm map rev app] in HF; inv_F2; cbn [concat]; rewrite ?app_nil_r.
+  - match goal with H1 : Rel (UOnlyR rl, _, _) ?y1, H2 : Rel (UOnlyR rr, _, _) ?y2 |- _ =>
+      pose proof (uspec_split (bits pr) [] (entries rl) [] (entries rr) la ra y1 y2) as U; cbn [app] in U; apply U; clear U;
+      [ apply under_nil | intros e He; eapply (entries_under pfx R bits ok); eassumption
+      | apply under_nil | intros e He; eapply (entries_under pfx R bits ok); eassumption
+      | apply Hone; [eapply good_intro; eassumption | exact H1]
+      | apply Hone; [eapply good_intro; eassumption | exact H2] ] end.
+  - apply Hone; [eapply good_intro; eassumption | assumption].
+  - apply Hone; [eapply good_intro; eassumption | assumption].
+  - apply uspec_nil.
+Qed.
+
+Lemma first_l_spec il pl vl (ll lr : treeL) (r : treeR) :
+  good (Node il pl vl ll lr) -> good r -> prefix_of (bits pl) (rk r) -> bits pl <> rk r ->
+  Forall okI (first_l (Node il pl vl ll lr) r) /\
+  forall la ra ls, Forall2 Rel (rev (extend la ra (first_l (Node il pl vl ll lr) r))) ls ->
+    uspec (entries ll ++ entries lr) (entries r) la ra (concat ls).
+Proof.
+  intros G Gr Hp Hn. destruct (good_node_inv L _ _ _ _ _ G) as (Op & Wl & Wr).
+  pose proof (good_ok R r Gr) as Or.
+  pose proof (ni_classify _ _ ll r Wl (proj2 Gr)) as Cl.
+  pose proof (ni_classify _ _ lr r Wr (proj2 Gr)) as Cr.
+  assert (Hside : prefix_of (bits pl ++ [to_right pl (tpfx pfx R pzero r)]) (rk r)).
+  { rewrite (tr_spec _ _ Op Or). apply proper_ext; [exact Hp | congruence]. }
+  assert (Ul : under (bits pl ++ [false]) (entries ll)).
+  { intros e He. eapply (entries_under pfx L bits ok); eassumption. }
+  assert (Ur : under (bits pl ++ [true]) (entries lr)).
+  { intros e He. eapply (entries_under pfx L bits ok); eassumption. }
+  unfold SetOps.u_next_first_l. cbn [tleft tright tpfx].
+  destruct (is_node ll) eqn:Nl; destruct (is_node lr) eqn:Nr.
+  - destruct (to_right pl (tpfx pfx R pzero r)) eqn:S.
+    + split.
+      * apply Forall_app. split; [eapply class_ok; exact Cr|].
+        apply Forall_cons; [|apply Forall_nil]. cbn [okI]. eapply good_intro; eassumption.
+      * intros la ra ls HF. rewrite extend_app, rev_app_distr in HF.
+        change (rev (extend la ra [UOnlyL ll])) with [((UOnlyL ll : uidx), orelse (pv ll) la, ra)] in HF.
+        cbn [app] in HF. inversion HF as [|e0 y1 st ls' H1 HF']; subst. cbn [concat].
+        pose proof (class_spec _ _ _ la ra Cr _ HF') as U2.
+        pose proof (uspec_split (bits pl) (entries ll) [] (entries lr) (entries r) la ra y1 (concat ls')) as U.
+        cbn [app] in U. apply U; clear U; try assumption; [apply under_nil | |].
+        -- eapply under_weaken; [exact Hside | apply good_under; exact Gr].
+        -- cbn [Rel] in H1. eapply uspec_inh; [| |exact H1]; [right; intros e q [] | left; reflexivity].
+    + split.
+      * apply Forall_cons; [|eapply class_ok; exact Cl]. cbn [okI]. eapply good_intro; eassumption.
+      * intros la ra ls HF. rewrite extend_cons, rev_app_distr in HF.
+        change (rev (extend la ra [UOnlyL lr])) with [((UOnlyL lr : uidx), orelse (pv lr) la, ra)] in HF.
+        apply Forall2_app_inv_l in HF. destruct HF as (l1 & l2 & HF1 & HF2 & ->).
+        inv_F2. rewrite concat_app. cbn [concat]. rewrite app_nil_r.
+        pose proof (class_spec _ _ _ la ra Cl _ HF1) as U1.
+        match goal with H2 : Rel (UOnlyL lr, _, _) ?y2 |- _ =>
+          pose proof (uspec_split (bits pl) (entries ll) (entries r) (entries lr) [] la ra (concat l1) y2) as U;
+          rewrite app_nil_r in U; apply U; clear U; try assumption; [| apply under_nil |];
+          [ eapply under_weaken; [exact Hside | apply good_under; exact Gr]
+          | cbn [Rel] in H2; eapply uspec_inh; [| |exact H2]; [right; intros e q [] | left; reflexivity] ] end.
+  - apply is_node_false in Nr. subst lr. split; [eapply class_ok; exact Cl|].
+    intros la ra ls HF. cbn [entries]. rewrite app_nil_r. eapply class_spec; eassumption.
+  - apply is_node_false in Nl. subst ll. split; [eapply class_ok; exact Cr|].
+    intros la ra ls HF. cbn [entries app]. eapply class_spec; eassumption.
+  - apply is_node_false in Nl. apply is_node_false in Nr. subst ll lr. split.
+    + apply Forall_cons; [exact Gr | apply Forall_nil].
+    + intros la ra ls HF. change (rev (extend la ra [UOnlyR r])) with [((UOnlyR r : uidx), la, orelse (pv r) ra)] in HF.
+      inv_F2. cbn [entries app concat]. rewrite app_nil_r.
+      match goal with H : Rel _ _ |- _ => cbn [Rel] in H; eapply uspec_inh; [| |exact H] end;
+        [left; reflexivity | right; intros e q []].
+Qed.
+
+Lemma first_r_spec (l : treeL) ir pr vr (rl rr : treeR) :
+  good l -> good (Node ir pr vr rl rr) -> prefix_of (bits pr) (rk l) -> bits pr <> rk l ->
+  Forall okI (first_r l (Node ir pr vr rl rr)) /\
+  forall la ra ls, Forall2 Rel (rev (extend la ra (first_r l (Node ir pr vr rl rr)))) ls ->
+    uspec (entries l) (entries rl ++ entries rr) la ra (concat ls).
+Proof.
+  intros Gl G Hp Hn. destruct (good_node_inv R _ _ _ _ _ G) as (Op & Wl & Wr).
+  pose proof (good_ok L l Gl) as Ol.
+  pose proof (ni_classify _ _ l rl (proj2 Gl) Wl) as Cl.
+  pose proof (ni_classify _ _ l rr (proj2 Gl) Wr) as Cr.
+  assert (Hside : prefix_of (bits pr ++ [to_right pr (tpfx pfx L pzero l)]) (rk l)).
+  { rewrite (tr_spec _ _ Op Ol). apply proper_ext; [exact Hp | congruence]. }
+  assert (Ul : under (bits pr ++ [false]) (entries rl)).
+  { intros e He. eapply (entries_under pfx R bits ok); eassumption. }
+  assert (Ur : under (bits pr ++ [true]) (entries rr)).
+  { intros e He. eapply (entries_under pfx R bits ok); eassumption. }
+  unfold SetOps.u_next_first_r. cbn [tleft tright tpfx].
+  destruct (is_node rl) eqn:Nl; destruct (is_node rr) eqn:Nr.
+  - destruct (to_right pr (tpfx pfx L pzero l)) eqn:S.
+    + split.
+      * apply Forall_app. split; [eapply class_ok; exact Cr|].
+        apply Forall_cons; [|apply Forall_nil]. cbn [okI]. eapply good_intro; eassumption.
+      * intros la ra ls HF. rewrite extend_app, rev_app_distr in HF.
+        change (rev (extend la ra [UOnlyR rl])) with [((UOnlyR rl : uidx), la, orelse (pv rl) ra)] in HF.
+        cbn [app] in HF. inversion HF as [|e0 y1 st ls' H1 HF']; subst. cbn [concat].
+        pose proof (class_spec _ _ _ la ra Cr _ HF') as U2.
+        pose proof (uspec_split (bits pr) [] (entries rl) (entries l) (entries rr) la ra y1 (concat ls')) as U.
+        cbn [app] in U. apply U; clear U; try assumption; [apply under_nil | |].
+        -- eapply under_weaken; [exact Hside | apply good_under; exact Gl].
+        -- cbn [Rel] in H1. eapply uspec_inh; [| |exact H1]; [left; reflexivity | right; intros e q []].
+    + split.
+      * apply Forall_cons; [|eapply class_ok; exact Cl]. cbn [okI]. eapply good_intro; eassumption.
+      * intros la ra ls HF. rewrite extend_cons, rev_app_distr in HF.
+        change (rev (extend la ra [UOnlyR rr])) with [((UOnlyR rr : uidx), la, orelse (pv rr) ra)] in HF.
+        apply Forall2_app_inv_l in HF. destruct HF as (l1 & l2 & HF1 & HF2 & ->).
+        inv_F2. rewrite concat_app. cbn [concat]. rewrite app_nil_r.
+        pose proof (class_spec _ _ _ la ra Cl _ HF1) as U1.
+        match goal with H2 : Rel (UOnlyR rr, _, _) ?y2 |- _ =>
+          pose proof (uspec_split (bits pr) (entries l) (entries rl) [] (entries rr) la ra (concat l1) y2) as U;
+          rewrite app_nil_r in U; apply U; clear U; try assumption; [| apply under_nil |];
+          [ eapply under_weaken; [exact Hside | apply good_under; exact Gl]
+          | cbn [Rel] in H2; eapply uspec_inh; [| |exact H2]; [left; reflexivity | right; intros e q []] ] end.
+  - apply is_node_false in Nr. subst rr. split; [eapply class_ok; exact Cl|].
+    intros la ra ls HF. cbn [entries]. rewrite app_nil_r. eapply class_spec; eassumption.
+  - apply is_node_false in Nl. subst rl. split; [eapply class_ok; exact Cr|].
+    intros la ra ls HF. cbn [entries app]. eapply class_spec; eassumption.
+  - apply is_node_false in Nl. apply is_node_false in Nr. subst rl rr. split.
+    + apply Forall_cons; [exact Gl | apply Forall_nil].
+    + intros la ra ls HF. change (rev (extend la ra [UOnlyL l])) with [((UOnlyL l : uidx), orelse (pv l) la, ra)] in HF.
+      inv_F2. cbn [entries app concat]. rewrite app_nil_r.
+      match goal with H : Rel _ _ |- _ => cbn [Rel] in H; eapply uspec_inh; [| |exact H] end;
+        [right; intros e q [] | left; reflexivity].
+Qed.
+
+Lemma both_spec il pl vl (ll lr : treeL) ir pr vr (rl rr : treeR) :
+  good (Node il pl vl ll lr) -> good (Node ir pr vr rl rr) -> bits pl = bits pr ->
+  Forall okI (ni lr rr ++ ni ll rl) /\
+  forall la ra ls, Forall2 Rel (rev (extend la ra (ni lr rr ++ ni ll rl))) ls ->
+    uspec (entries ll ++ entries lr) (entries rl ++ entries rr) la ra (concat ls).
+Proof.
+  intros Gl Gr E. destruct (good_node_inv L _ _ _ _ _ Gl) as (Opl & Wll & Wlr).
+  destruct (good_node_inv R _ _ _ _ _ Gr) as (Opr & Wrl & Wrr).
+  pose proof (ni_classify _ _ ll rl Wll Wrl) as Cl.
+  pose proof (ni_classify _ _ lr rr Wlr Wrr) as Cr.
+  split; [apply Forall_app; split; eapply class_ok; eassumption|].
+  intros la ra ls HF. rewrite extend_app, rev_app_distr in HF.
+  apply Forall2_app_inv_l in HF. destruct HF as (l1 & l2 & HF1 & HF2 & ->).
+  rewrite concat_app. apply (uspec_split (bits pl)).
+  - intros e He. eapply (entries_under pfx L bits ok); eassumption.
+  - rewrite E. intros e He. eapply (entries_under pfx R bits ok); eassumption.
+  - intros e He. eapply (entries_under pfx L bits ok); eassumption.
+  - rewrite E. intros e He. eapply (entries_under pfx R bits ok); eassumption.
+  - eapply class_spec; eassumption.
+  - eapply class_spec; eassumption.
+Qed.
+
+(* ------------------------------------------------------------------------------------------ *)
+(** * The local lemma of [run_rel] *)
+
+Definition kids (ix : uidx) : list uidx :=
+  match ix with
+  | UBoth l r => ni (tright l) (tright r) ++ ni (tleft l) (tleft r)
+  | UFirstL l r => first_l l r
+  | UFirstR l r => first_r l r
+  | UOnlyL l => only_l l
+  | UOnlyR r => only_r r
+  end.
+
+Lemma u_expand_snd ix la ra : snd (u_expand (ix, la, ra)) = extend la ra (kids ix).
+Proof. destruct ix; cbn [SetOps.u_expand snd kids]; try reflexivity. symmetry. apply extend_app. Qed.
+
+Lemma um_expand_snd ix : snd (um_expand ix) = kids ix.
+Proof. destruct ix; reflexivity. Qed.
+
+Lemma good_leaf {T} : ~ good (@Leaf pfx T).
+Proof. intros [H _]. discriminate. Qed.
+
+Lemma wf_below_l {T} i p v (l r : tree pfx T) :
+  good (Node i p v l r) -> below (bits p) (entries l ++ entries r).
+Proof.
+  intros G. destruct (good_node_inv T _ _ _ _ _ G) as (_ & Wl & Wr). apply below_app.
+  - apply (under_below T _ false). intros e He. eapply (entries_under pfx T bits ok); eassumption.
+  - apply (under_below T _ true). intros e He. eapply (entries_under pfx T bits ok); eassumption.
+Qed.
+
+Lemma cons_some {T} i p x (l r : tree pfx T) a : cons (Node i p (Some x) l r) a -> a = Some (p, x).
+Proof. intros H. exact H. Qed.
+
+Lemma kids_spec ix la ra : okI ix -> consI ix la ra ->
+  Forall okI (kids ix) /\
+  forall ls, Forall2 Rel (rev (extend la ra (kids ix))) ls ->
+    Rel (ix, la, ra) (opt_cons uitem (fst (u_expand (ix, la, ra))) (concat ls)).
+Proof.
+  intros Hok Hc. destruct ix as [l r|l r|l r|l|r]; cbn [okI consI] in Hok, Hc.
+  - destruct Hok as (Gl & Gr & E). destruct Hc as [Cl Cr].
+    destruct l as [|il pl vl ll lr]; [destruct (good_leaf Gl)|].
+    destruct r as [|ir pr vr rl rr]; [destruct (good_leaf Gr)|].
+    unfold rk in E. cbn [tpfx] in E. cbn [kids tleft tright].
+    destruct (both_spec _ _ vl _ _ _ _ vr _ _ Gl Gr E) as [K1 K2]. split; [exact K1|].
+    intros ls HF. specialize (K2 la ra ls HF).
+    pose proof (wf_below_l _ _ _ _ _ Gl) as Bl. pose proof (wf_below_l _ _ _ _ _ Gr) as Br. rewrite <- E in Br.
+    cbn [SetOps.u_expand fst tpfx tval Rel entries].
+    destruct vl as [x|]; destruct vr as [y|]; cbn [SetOps.u_get_next opt_cons app].
+    + apply cons_some in Cl. apply cons_some in Cr. subst la ra.
+      apply uspec_own_both; [symmetry; exact E | exact Bl | exact Br | exact K2].
+    + apply cons_some in Cl. subst la. apply uspec_own_l; assumption.
+    + apply cons_some in Cr. subst ra. apply uspec_own_r; [symmetry; exact E | exact Bl | exact Br | exact K2].
+    + exact K2.
+  - destruct Hok as (Gl & Gr & Hp & Hn).
+    destruct l as [|il pl vl ll lr]; [destruct (good_leaf Gl)|].
+    unfold rk at 1 in Hp. unfold rk at 1 in Hn. cbn [tpfx] in Hp, Hn. cbn [kids].
+    destruct (first_l_spec _ _ vl _ _ _ Gl Gr Hp Hn) as [K1 K2]. split; [exact K1|].
+    intros ls HF. specialize (K2 la ra ls HF).
+    pose proof (wf_below_l _ _ _ _ _ Gl) as Bl.
+    assert (Br : below (bits pl) (entries r)).
+    { apply (below_proper R _ (rk r)); [exact Hp | congruence | apply good_under; exact Gr]. }
+    cbn [SetOps.u_expand fst tpfx tval Rel entries].
+    destruct vl as [x|]; cbn [SetOps.u_get_next opt_cons app].
+    + apply cons_some in Hc. subst la. apply uspec_own_l; assumption.
+    + exact K2.
+  - destruct Hok as (Gl & Gr & Hp & Hn).
+    destruct r as [|ir pr vr rl rr]; [destruct (good_leaf Gr)|].
+    unfold rk at 1 in Hp. unfold rk at 1 in Hn. cbn [tpfx] in Hp, Hn. cbn [kids].
+    destruct (first_r_spec _ _ _ vr _ _ Gl Gr Hp Hn) as [K1 K2]. split; [exact K1|].
+    intros ls HF. specialize (K2 la ra ls HF).
+    pose proof (wf_below_l _ _ _ _ _ Gr) as Br.
+    assert (Bl : below (bits pr) (entries l)).
+    { apply (below_proper L _ (rk l)); [exact Hp | congruence | apply good_under; exact Gl]. }
+    cbn [SetOps.u_expand fst tpfx tval Rel entries].
+    destruct vr as [y|]; cbn [SetOps.u_get_next opt_cons app].
+    + apply cons_some in Hc. subst ra. apply uspec_own_r; [reflexivity | assumption..].
+    + exact K2.
+  - destruct l as [|il pl vl ll lr]; [destruct (good_leaf Hok)|]. cbn [kids].
+    destruct (only_l_spec _ _ vl _ _ Hok) as [K1 K2]. split; [exact K1|].
+    intros ls HF. specialize (K2 la ra ls HF).
+    pose proof (wf_below_l _ _ _ _ _ Hok) as Bl.
+    cbn [SetOps.u_expand fst tpfx tval Rel entries].
+    destruct vl as [x|]; cbn [SetOps.u_get_next opt_cons app].
+    + apply cons_some in Hc. subst la. apply uspec_own_l; [exact Bl | intros e [] | exact K2].
+    + exact K2.
+  - destruct r as [|ir pr vr rl rr]; [destruct (good_leaf Hok)|]. cbn [kids].
+    destruct (only_r_spec _ _ vr _ _ Hok) as [K1 K2]. split; [exact K1|].
+    intros ls HF. specialize (K2 la ra ls HF).
+    pose proof (wf_below_l _ _ _ _ _ Hok) as Br.
+    cbn [SetOps.u_expand fst tpfx tval Rel entries].
+    destruct vr as [y|]; cbn [SetOps.u_get_next opt_cons app].
+    + apply cons_some in Hc. subst ra. apply uspec_own_r; [reflexivity | intros e [] | exact Br | exact K2].
+    + exact K2.
+Qed.
+
 End UN.
